@@ -587,8 +587,9 @@ func (prop c16) Execute(sc *sim.Scenario) *sim.Outcome {
 				return out
 			}
 			out.Faults["invalid-call/"+st.Tag]++
-			if err == nil || y != nil {
-				out.Fail("invalid-call-accepted", "%s: the invalid Forward returned no error (or a result)", where)
+			_ = y // what a rejected call returns besides its error is not judged
+			if err == nil {
+				out.Fail("invalid-call-accepted", "%s: the invalid Forward returned no error", where)
 				return fin()
 			}
 			if sim.DeepFPAny(fc) != before {
